@@ -32,6 +32,10 @@ var Shared = map[expr.Operator]RenderFN{
 	expr.List:      list,
 }
 
+// maxColumnNameLen is the longest identifier sql keeps. Postgres silently truncates longer
+// identifiers so two different column names could end up referring to the same column.
+const maxColumnNameLen = 63
+
 // Base is the base driver that is embedded in each driver
 type Base struct {
 	RenderFNs map[expr.Operator]RenderFN
@@ -201,6 +205,9 @@ func (b Base) serialize(in any) (s string, err error) {
 		if strings.ContainsRune(string(v), '"') {
 			return "", fmt.Errorf("column name contains a double quote: %q", v)
 		}
+		if len(v) > maxColumnNameLen {
+			return "", fmt.Errorf("column name is longer than %d bytes: %q", maxColumnNameLen, v)
+		}
 		// Always escape column names with double quotes,
 		// otherwise we need to know the reserved words
 		// which might change in the future.
@@ -254,6 +261,9 @@ func (b Base) serializeParams(in any) (s string, params []any, err error) {
 		}
 		if strings.ContainsRune(string(v), '"') {
 			return "", params, fmt.Errorf("column name contains a double quote: %q", v)
+		}
+		if len(v) > maxColumnNameLen {
+			return "", params, fmt.Errorf("column name is longer than %d bytes: %q", maxColumnNameLen, v)
 		}
 		// Always escape column names with double quotes,
 		// otherwise we need to know the reserved words
